@@ -261,6 +261,13 @@ func (p *Proxy) handleLoop(conn net.Conn) {
 			log.Debugf("martian: closing connection: %v", conn.RemoteAddr())
 			return
 		}
+
+		// handle returns nil after a modifier has hijacked the session. The connection is the
+		// hijacker's from then on: no deadline is set on it and no further request is read from it.
+		if s.Hijacked() {
+			log.Debugf("martian: connection hijacked, leaving read loop: %v", conn.RemoteAddr())
+			return
+		}
 	}
 }
 
